@@ -949,6 +949,7 @@ class GeoEllipse(PolygonBase):
             and self.semi_minor == other.semi_minor
             and self.rotation == other.rotation
             and self.dt == other.dt
+            and self.holes == other.holes
         )
 
     def __hash__(self) -> int:
@@ -1190,6 +1191,7 @@ class GeoRing(PolygonBase):
             and self.angle_min == other.angle_min
             and self.angle_max == other.angle_max
             and self.dt == other.dt
+            and self.holes == other.holes
         )
 
     def __hash__(self) -> int:
